@@ -539,6 +539,105 @@ func trunc(s string, n int) string {
 	return s
 }
 
+// ---------------- Stop racing with the start of the poller goroutines ----------------
+// Engine.Start returns as soon as the poller goroutines are created; they begin to run whenever the scheduler gets to
+// them. With a single P and no yield between Start and Stop the stop request reaches every poller BEFORE its goroutine
+// has run at all - the extreme point of the race, made deterministic. Runs last: a hang leaves this goroutine stuck in
+// Stop, so the watchdog writes the report and ends the process.
+func immediateStops(rep *hx.Report, out string, seed int64) {
+	prev := runtime.GOMAXPROCS(1)
+	defer runtime.GOMAXPROCS(prev)
+	r := rand.New(rand.NewSource(seed))
+	type cur struct {
+		h  *history
+		t0 time.Time
+	}
+	var mu sync.Mutex
+	var now *cur
+	stopWatch := make(chan struct{})
+	go func() {
+		tk := time.NewTicker(200 * time.Millisecond)
+		defer tk.Stop()
+		for {
+			select {
+			case <-stopWatch:
+				return
+			case <-tk.C:
+				mu.Lock()
+				c := now
+				mu.Unlock()
+				if c != nil && time.Since(c.t0) > watchdog {
+					c.h.StopMs = time.Since(c.t0).Milliseconds()
+					rep.Case(fmt.Sprintf("%s/%s/%d/immediate/%s", c.h.Engine, c.h.Mode, c.h.NPoller, c.h.StopKind), true)
+					rep.Add(hx.Finding{Kind: "oracle", Property: "C18", Signature: "stop-hangs-right-after-start-" + c.h.Engine + "-" + c.h.StopKind,
+						What: fmt.Sprintf("%s called right after Start (before the poller goroutines had run, GOMAXPROCS=1) did not return within %v", c.h.StopKind, watchdog), Replay: c.h})
+					rep.Write(out)
+					os.Exit(0)
+				}
+			}
+		}
+	}()
+	for i := 0; i < 18; i++ {
+		em, os1, mname := epollCfg(i % 3)
+		np := 1 + r.Intn(4)
+		h := &history{Engine: "nbio", Mode: mname, NPoller: np, Seed: seed, Steps: []string{"stop-right-after-start"}, Opened: -1, Closed: -1}
+		h.StopKind = []string{"Stop", "Shutdown"}[i/3%2]
+		var start func() error
+		var stop func()
+		if i >= 9 {
+			h.Engine = "nbhttp"
+			iomod := []int{nbhttp.IOModNonBlocking, nbhttp.IOModBlocking, nbhttp.IOModMixed}[r.Intn(3)]
+			h.Mode = fmt.Sprintf("%s/iomod=%d", mname, iomod)
+			e := nbhttp.NewEngine(nbhttp.Config{Network: "tcp", Addrs: []string{freePort()}, NPoller: np, EpollMod: em, EPOLLONESHOT: os1, IOMod: iomod,
+				Handler: http.HandlerFunc(func(w http.ResponseWriter, req *http.Request) {})})
+			start = e.Start
+			stop = func() {
+				if h.StopKind == "Stop" {
+					e.Stop()
+				} else {
+					ctx, cancel := context.WithTimeout(context.Background(), watchdog+5*time.Second)
+					e.Shutdown(ctx)
+					cancel()
+				}
+			}
+		} else {
+			var addrs []string
+			if i%2 == 0 {
+				addrs = []string{freePort()}
+			}
+			g := nbio.NewEngine(nbio.Config{Network: "tcp", Addrs: addrs, NPoller: np, EpollMod: em, EPOLLONESHOT: os1})
+			start = g.Start
+			stop = func() {
+				if h.StopKind == "Stop" {
+					g.Stop()
+				} else {
+					ctx, cancel := context.WithTimeout(context.Background(), watchdog+5*time.Second)
+					g.Shutdown(ctx)
+					cancel()
+				}
+			}
+		}
+		if err := start(); err != nil {
+			rep.Stat("immediate.start-failed")
+			continue
+		}
+		c := &cur{h: h, t0: time.Now()}
+		mu.Lock()
+		now = c
+		mu.Unlock()
+		stop() // no yield since Start returned
+		mu.Lock()
+		now = nil
+		mu.Unlock()
+		h.Returned = true
+		h.StopMs = time.Since(c.t0).Milliseconds()
+		rep.Case(fmt.Sprintf("%s/%s/%d/immediate/%s", h.Engine, h.Mode, h.NPoller, h.StopKind), true)
+		rep.Ops += 2
+		rep.Stat("immediate." + h.Engine + "." + h.StopKind)
+	}
+	close(stopWatch)
+}
+
 type quiet struct{}
 
 func (quiet) SetLevel(int)                  {}
@@ -561,7 +660,7 @@ func main() {
 		defer model.Close()
 	}
 	rep := hx.NewReport("stop", *seed)
-	rep.Rule = "histories of accepts, AddConn, DialAsync, echo traffic, multi-MiB backlogs to non-reading peers, vectored writes beyond MaxWriteBufferSize, pending deadlines, peer and server closes, closes racing Stop; nbhttp: exchanges, half requests, idle and unread-response connections, an injected Accept error; connections refused because the descriptor table (MaxOpenFiles) is full, for accepted / added / dialed / nbhttp connections (corpus + random); x {LT, ET, ET+ONESHOT} x NPoller x IOMod x {Stop, Shutdown}; non-trivial = at least one step before Stop; distinct = distinct (configuration, step list)"
+	rep.Rule = "histories of accepts, AddConn, DialAsync, echo traffic, multi-MiB backlogs to non-reading peers, vectored writes beyond MaxWriteBufferSize, pending deadlines, peer and server closes, closes racing Stop; nbhttp: exchanges, half requests, idle and unread-response connections, an injected Accept error; connections refused because the descriptor table (MaxOpenFiles) is full, for accepted / added / dialed / nbhttp connections (corpus + random); Stop/Shutdown right after Start before any poller goroutine has run (single P, no yield); x {LT, ET, ET+ONESHOT} x NPoller x IOMod x {Stop, Shutdown}; non-trivial = at least one step before Stop; distinct = distinct (configuration, step list)"
 	// warm up lazily started runtime goroutines so the baseline is stable
 	coreCase(hx.NewReport("warmup", 0), 12345, force{})
 	httpCase(hx.NewReport("warmup", 0), 12345, force{})
@@ -577,6 +676,9 @@ func main() {
 	for i := 0; i < *n && !rep.TooMany(); i++ {
 		coreCase(rep, *seed*100003+int64(i), force{})
 		httpCase(rep, *seed*100019+int64(i), force{})
+	}
+	if !rep.TooMany() {
+		immediateStops(rep, *out, *seed*100069)
 	}
 	rep.Write(*out)
 }
